@@ -120,6 +120,44 @@ def _fuzz_decode_phase(run_, vc, seed, phases):
     shutil.rmtree(work, ignore_errors=True)
 
 
+
+def _miri_pass(run_, absorb, phases, sub, tier, label, flags, seed):
+    t0 = time.time()
+    pre, env, cwd = build.miri_cmd()
+    env["MIRIFLAGS"] += flags
+    # one warm-up invocation builds the interpreter sysroot / the crate once instead of 16 times concurrently
+    w = subprocess.run(pre + ["warmup"], stdout=subprocess.PIPE, stderr=subprocess.PIPE, env=env, cwd=cwd)
+    if b"usage: vc" not in w.stderr:
+        run_.errors.append("%s warm-up failed: %s" % (label, w.stderr[-800:].decode(errors="replace")))
+    else:
+        def one(i):
+            return i, subprocess.run(pre + [sub, "--tier", tier, "--seed", str(seed), "--scale", "miri", "--shard", str(i),
+                                            "--shards", str(MIRI_SHARDS)], stdout=subprocess.PIPE, stderr=subprocess.PIPE,
+                                     env=env, cwd=cwd)
+        with ThreadPoolExecutor(MIRI_SHARDS) as ex:
+            results = list(ex.map(one, range(MIRI_SHARDS)))
+        for i, p in results:
+            out = _parse_outcome(p.stdout)
+            if p.returncode != 0 and (b"Undefined Behavior" in p.stderr or b"error: " in p.stderr) and out is None:
+                sig = _miri_signature(p.stderr)
+                if "resource exhaustion" in sig or "unsupported operation" in sig:
+                    run_.inconclusive.append({"phase": label, "shard": i, "why": sig})
+                    continue
+                run_.stats[label + ".reports"] += 1
+                tail = p.stderr.decode(errors="replace")
+                idx = tail.find("error:")
+                run_.violations.append({"signature": sig, "what": "[%s] %s" % (label, tail[idx:idx + 500]),
+                                        "replay": {"kind": "codec", "phase": label, "stderr": tail[idx:idx + 6000],
+                                                   "how_to": "cd %s && MIRIFLAGS='%s' %s %s --tier %s --seed %d --scale miri --shard %d --shards %d"
+                                                   % (cwd, env["MIRIFLAGS"], " ".join(pre), sub, tier, seed, i, MIRI_SHARDS)}})
+            elif p.returncode != 0 or out is None:
+                run_.errors.append("%s shard %d failed: rc=%s %s" % (label, i, p.returncode, p.stderr[-600:].decode(errors="replace")))
+            else:
+                absorb(label, out, " ".join(pre))
+                run_.stats[label + ".clean_shards"] += 1
+    phases.setdefault(label, {})["wall_s"] = round(time.time() - t0, 1)
+
+
 def run(prop, sub, tier, seed, rule, required, assumptions, exhaustive_note):
     run_ = core.Run(prop, tier, seed)
     paths = build.build("release", ("vc",))
@@ -194,40 +232,15 @@ def run(prop, sub, tier, seed, rule, required, assumptions, exhaustive_note):
     except build.BuildError as e:
         run_.errors.append("ASan build failed: %s" % e)
 
-    # ---- Miri (tiny workload, sharded over processes)
-    t0 = time.time()
-    pre, env, cwd = build.miri_cmd()
-    # one warm-up invocation builds the interpreter sysroot / the crate once instead of 16 times concurrently
-    w = subprocess.run(pre + ["warmup"], stdout=subprocess.PIPE, stderr=subprocess.PIPE, env=env, cwd=cwd)
-    if b"usage: vc" not in w.stderr:
-        run_.errors.append("miri warm-up failed: %s" % w.stderr[-800:].decode(errors="replace"))
-    else:
-        def one(i):
-            return i, subprocess.run(pre + [sub, "--tier", tier, "--seed", str(seed), "--scale", "miri", "--shard", str(i),
-                                            "--shards", str(MIRI_SHARDS)], stdout=subprocess.PIPE, stderr=subprocess.PIPE,
-                                     env=env, cwd=cwd)
-        with ThreadPoolExecutor(MIRI_SHARDS) as ex:
-            results = list(ex.map(one, range(MIRI_SHARDS)))
-        for i, p in results:
-            out = _parse_outcome(p.stdout)
-            if p.returncode != 0 and (b"Undefined Behavior" in p.stderr or b"error: " in p.stderr) and out is None:
-                sig = _miri_signature(p.stderr)
-                if "resource exhaustion" in sig or "unsupported operation" in sig:
-                    run_.inconclusive.append({"phase": "miri", "shard": i, "why": sig})
-                    continue
-                run_.stats["miri.reports"] += 1
-                tail = p.stderr.decode(errors="replace")
-                idx = tail.find("error:")
-                run_.violations.append({"signature": sig, "what": "[miri] %s" % tail[idx:idx + 500],
-                                        "replay": {"kind": "codec", "phase": "miri", "stderr": tail[idx:idx + 6000],
-                                                   "how_to": "cd %s && MIRIFLAGS=-Zmiri-disable-isolation %s %s --tier %s --seed %d --scale miri --shard %d --shards %d"
-                                                   % (cwd, " ".join(pre), sub, tier, seed, i, MIRI_SHARDS)}})
-            elif p.returncode != 0 or out is None:
-                run_.errors.append("miri shard %d failed: rc=%s %s" % (i, p.returncode, p.stderr[-600:].decode(errors="replace")))
-            else:
-                absorb("miri", out, " ".join(pre))
-                run_.stats["miri.clean_shards"] += 1
-    phases.setdefault("miri", {})["wall_s"] = round(time.time() - t0, 1)
+    # ---- Miri (tiny workload, sharded over processes). Thorough: a second pass at another seed under the Tree Borrows aliasing
+    # model with symbolic alignment checking (the default pass uses Stacked Borrows): a report under either model is a violation.
+    passes = [("miri", "", seed)]
+    if tier == "thorough":
+        required = dict(required)
+        required["miri-tree-borrows.clean_shards"] = MIRI_SHARDS
+        passes.append(("miri-tree-borrows", " -Zmiri-tree-borrows -Zmiri-symbolic-alignment-check", seed + 1))
+    for label, flags, mseed in passes:
+        _miri_pass(run_, absorb, phases, sub, tier, label, flags, mseed)
 
     if sub == "c11" and tier == "thorough":
         _fuzz_decode_phase(run_, vc, seed, phases)
